@@ -664,6 +664,14 @@ def run(prop, tier, seed):
             _run(verdict, cov, tier, seed, rng, thorough, scratch)
             # the schedule half: Core.tla's model of reload_from_config and the C12 clauses of Monitors.tla on
             # reloads interleaved with deaths, periodic checks, read-only requests (harness/check_reload.py)
+            # ... and TLC on Core itself: every interleaving of one or two reloads (numprocesses only, another key,
+            # a section removed / added, all at once), a read-only request and a worker death (MC sets c12q / c12)
+            from harness import checks_core
+            mc = checks_core.model_check("C12", ["c12q"] if not thorough else ["c12q", "c12"], scratch, verdict,
+                                         timeout=600 if not thorough else 3600)
+            cov["core_mc_configs"] = mc["configs"]
+            cov["states"] += mc["states"]
+            cov["transitions"] += mc["transitions"]
             from harness import check_reload
             sched = check_reload.run_reload_sched(verdict, tier, seed, scratch, ("C12_",), n_quick=200, n_thorough=5000,
                                                   conf_quick=60, conf_thorough=800)
